@@ -85,6 +85,11 @@ def presentPrefix (i : Issuer) (useTest : Bool) : Str :=
 def searchPrefixes (is : List Issuer) : List Str :=
   is.flatMap (fun i => i.ca :: (match i.test with | some t => [t] | none => []))
 
+/-- what `getChallengeInfo` can see of an issuer that is configured through the `Issuer`
+interface only (an application's type wrapping an `ACMEIssuer`): its `IssuerKey()`, hence
+the production CA's prefix; the test CA is a field of the concrete type -/
+def ifaceView (i : Issuer) : Issuer := { ca := i.ca, test := none }
+
 /-- `getChallengeInfo`: `none` = error -/
 def lookup (E : Env) (S : State) (n : Nat) (ps : List Str) (name : Str) : Option Entry :=
   match S.mem n name with
